@@ -20,7 +20,7 @@ theorem dmMakedirs_fs_spec (cfg : Cfg) (hdry : cfg.dryRun = false) (path : Str) 
     (hf : (dmMakedirs cfg path b s).failed = false) :
     NL (dmMakedirs cfg path b s).fs ∧
     ∀ k, (dmMakedirs cfg path b s).fs.get k = s.fs.get k ∨
-      (s.fs.get k = none ∧ ∃ mo, (dmMakedirs cfg path b s).fs.get k = some (.dir mo)) := by
+      (s.fs.get k = none ∧ (dmMakedirs cfg path b s).fs.get k = some (.dir (andNot 0o777 cfg.procUmask))) := by
   unfold dmMakedirs at hf ⊢
   dsimp only at hf ⊢
   have hf1 : (mkdirs cfg path b s).failed = false := by
@@ -40,7 +40,7 @@ theorem dmMakedirs_fs_spec (cfg : Cfg) (hdry : cfg.dryRun = false) (path : Str) 
     refine ⟨m3, fun k => ?_⟩
     rcases m4 k with e | ⟨_, _, _, _, hn, hd⟩
     · exact Or.inl e
-    · exact Or.inr ⟨hn, _, hd⟩
+    · exact Or.inr ⟨hn, hd⟩
 
 /-- a successful `do_copyfile` of a regular file (not `--only-changed`): the destination holds the source's
 content, mode and time stamp; every other key is as before or a newly created directory -/
@@ -53,7 +53,7 @@ theorem doCopyfile_file_spec (cfg : Cfg) (hdry : cfg.dryRun = false) (honly : cf
     ∀ k, k ≠ keyOf cfg.cwd to →
       (doCopyfile cfg fp (.file m d t) to mk fo s).1.fs.get k = s.fs.get k ∨
       (s.fs.get (keyOf cfg.cwd to) = none ∧ s.fs.get k = none ∧
-        ∃ mo, (doCopyfile cfg fp (.file m d t) to mk fo s).1.fs.get k = some (.dir mo)) := by
+        (doCopyfile cfg fp (.file m d t) to mk fo s).1.fs.get k = some (.dir (andNot 0o777 cfg.procUmask))) := by
   unfold doCopyfile at hf ⊢
   simp only [srcCopyable, Bool.not_true, Bool.false_eq_true, if_false] at hf ⊢
   have hP : (copyPrepare cfg (.file m d t) to mk s).1.failed = false := by
@@ -166,7 +166,7 @@ theorem installFileTo_exact (cfg : Cfg) (hdry : cfg.dryRun = false) (honly : cfg
     ∀ k, k ≠ keyOf cfg.cwd out →
       (installFileTo cfg e out outdir fo s).fs.get k = s.fs.get k ∨
       (s.fs.get (keyOf cfg.cwd out) = none ∧ s.fs.get k = none ∧
-        ∃ mo, (installFileTo cfg e out outdir fo s).fs.get k = some (.dir mo)) := by
+        (installFileTo cfg e out outdir fo s).fs.get k = some (.dir (andNot 0o777 cfg.procUmask))) := by
   unfold installFileTo at hf ⊢
   dsimp only at hf ⊢
   rw [hsrc] at hf ⊢
@@ -197,7 +197,7 @@ theorem installFileTo_NL (cfg : Cfg) (hdry : cfg.dryRun = false) (honly : cfg.on
   intro k t' e'
   by_cases hkk : k = keyOf cfg.cwd out
   · subst hkk; rw [h1] at e'; cases e'
-  · rcases h2 k hkk with h | ⟨_, _, mo, h⟩
+  · rcases h2 k hkk with h | ⟨_, _, h⟩
     · rw [h] at e'; exact hNL k t' e'
     · rw [h] at e'; cases e'
 
